@@ -231,6 +231,7 @@ def log_features(log):
     acc = set()
     f = set()
     pend, verdicts = {}, {}
+    ids, emptyc = {}, set()
     for x in log:
         k, c = x["k"], x.get("c")
         if k == "authcall":
@@ -244,6 +245,13 @@ def log_features(log):
             if x.get("ok"):
                 acc.add(c)
                 f.add("accept")
+                idc = ids.setdefault(x.get("id", ""), set())
+                idc.add(c)
+                if x.get("id", "") == "":
+                    f.add("accepted-with-empty-id")
+                    emptyc.add(c)
+                if len(idc) > 1:
+                    f.add("one-id-accepted-on-several-connections")
             else:
                 f.add("reject")
         elif k == "authcall":
@@ -259,6 +267,8 @@ def log_features(log):
             f.add(k)
         elif k == "req" and c in acc and x.get("m") == "POST" and x.get("h") == "hysteria" and x.get("p") == "/auth":
             f.add("repeat-auth-on-authed")
+            if c in emptyc:
+                f.add("auth-request-after-accept-with-empty-id")
         elif k == "close":
             f.add("close-authed" if c in acc else "close-unauthed")
     return f
